@@ -795,5 +795,9 @@ def run(ctx):
     # (C02.ANTISYM): the identity map turns a grid run into a graph run that must reproduce it
     from . import c02 as _c02
     borrow(ctx, "C16", _c02.rule_antisym, ctx.cx)
+    # shared clause: state and chemostat flags reach the grid and the graph initialiser in one and the same layout (C02.TRANSPOSE)
+    from .. import vlay
+    vlay.check_init_layouts(ctx, "C16.TRANSPOSE", ctx.cx, idxmod.Idx(ctx.cx))
+    ctx.floor("C16.TRANSPOSE", 4)
     lints.run(ctx, "C16", ctx.py, ["simulate", "coarsegrain"], truth_floor=3)
     ctx.assume("conservation totals, centroid distances and identity-map equivalence are value-level and not decided")
